@@ -94,7 +94,7 @@ class FSCGradientAscent(Learns):
         self.iterations = iterations
         self.controller_state_count = controller_state_count
         self.optimizer = optimizer
-        self.seed = seed or torch.randint(2**30, size=(1,)).item()
+        self.seed = seed if seed is not None else torch.randint(2**30, size=(1,)).item()
 
     def train_on(self, pomdp: TabularPOMDP):
         # Number of states, actions, observations in the POMDP
